@@ -3,8 +3,8 @@
 set -e
 cd "$(dirname "$0")/.."
 command -v java cmake ninja python3 g++ >/dev/null
-for f in spec/*.tla; do
-  tla-sany "$f" >/dev/null 2>&1 || { echo "SANY failed on $f"; tla-sany "$f" | tail -20; exit 1; }
+for f in spec/*.tla; do f=$(basename $f)
+  (cd spec && tla-sany "$f" >/dev/null 2>&1) || { echo "SANY failed on $f"; (cd spec && tla-sany "$f" | tail -20); exit 1; }
 done
 python3 - <<'PY'
 import sys; sys.path.insert(0, 'lib')
